@@ -30,6 +30,9 @@ var PortAlpha = []*[]wm.APort{nil,
 	ports(wm.APort{Kind: "named", Name: "http"}),
 	ports(wm.APort{Kind: "num", Proto: "UDP", Num: 53}, wm.APort{Kind: "num", Proto: "TCP", Num: 80}),
 	ports(wm.APort{Kind: "named", Name: "dns"}, wm.APort{Kind: "range", Proto: "SCTP", Num: 1, End: 65535}),
+	// entries without a protocol (default TCP) after entries of another protocol
+	ports(wm.APort{Kind: "num", Proto: "UDP", Num: 53}, wm.APort{Kind: "num", Num: 80}),
+	ports(wm.APort{Kind: "named", Name: "dns"}, wm.APort{Kind: "range", Num: 85, End: 100}),
 }
 var Actions = []string{"Allow", "Deny", "Pass"}
 
